@@ -23,6 +23,8 @@ DesignHolds    == stage = 1 /\ ~Deviates(req) => Good(req, obs)
 DeviationsFail == stage = 1 /\ Deviates(req) => ~Good(req, obs) /\ Broken(req, obs) = {"FailClosed"}
 SelfConforms   == stage = 1 => Conforms(req, obs)
 \* the client sends what the server-side route expects
-ClientDesign   == stage = 1 /\ Match(req) # {} /\ Authorized(req) /\ AllValid(req, RouteOf(req)) =>
+\* (except where "unspecified" exists only in the HTTP form: raw-leaves left out with cid-version > 0)
+ClientDesign   == stage = 1 /\ Match(req) # {} /\ Authorized(req) /\ AllValid(req, RouteOf(req))
+                  /\ ~(req.a["rawleaves"] = "absent" /\ req.a["cidv"] = "one") =>
                     ClientExpectedOps([req EXCEPT !.via = "client"]) = obs.ops
 =============================================================================
